@@ -266,7 +266,7 @@ func checkC01(c C01Case) *Failure {
 func TestC01_dag(t *testing.T) {
 	run(t, 6000, func(rt *rapid.T) {
 		c := genC01(rt)
-		if f := checkC01(c); f != nil {
+		if f := guard(func() *Failure { return checkC01(c) }); f != nil {
 			fail(rt, "C01/dag", c, f)
 		}
 	})
@@ -425,7 +425,7 @@ func checkC01Diamond(c C01Diamond) *Failure {
 func TestC01_diamond(t *testing.T) {
 	run(t, 200, func(rt *rapid.T) {
 		c := genC01Diamond(rt)
-		if f := checkC01Diamond(c); f != nil {
+		if f := guard(func() *Failure { return checkC01Diamond(c) }); f != nil {
 			fail(rt, "C01/diamond", c, f)
 		}
 	})
